@@ -30,6 +30,7 @@ def alphabet(full=True):
         a.append("prng:0:%s" % vl(xs))
     for pos in range(0, 5):
         a.append("emp:0:%d:9" % pos)
+    a.append("era:0:18446744073709551615")    # the position just before the first slot
     for pos in range(0, 4):
         a.append("era:0:%d" % pos)
         a.append("at:0:%d" % pos)
@@ -148,7 +149,7 @@ def rand_seq(rng, n, kind, with_fuel, interior_range):
         elif r < 52:
             op = "emp:%d:%d:%d" % (i, rng.below(s[0] + 2), x)
         elif r < 64:
-            op = "era:%d:%d" % (i, rng.below(s[0] + 2))
+            op = "era:%d:%d" % (i, rng.below(s[0] + 2)) if rng.chance(19, 20) else "era:%d:18446744073709551615" % i
         elif r < 70:
             op = "pop:%d" % i
         elif r < 73:
@@ -238,6 +239,12 @@ def gen_c07(tier, rng):
         for a in MA:
             for b in (MA if big else MA[::2]):
                 out.append(case("fv", "c07", "m", nofuel(s + [a, b])))
+    # elements built in place from constructor arguments (n, v), for element types with an initializer-list constructor
+    for n in range(0, 5):
+        for v in (1, 7, 65, 120):
+            for where in "bp":
+                for typ in "sv":
+                    out.append(case("fv", "c07", "il", "%d:%d:%s:%s" % (n, v, where, typ)))
     # an append whose element copy/move throws adds nothing: the sequence afterwards is the sequence before
     for s in S:
         for name in ("eb", "ic", "im", "pb"):
